@@ -169,7 +169,13 @@ WalkDir(at, shown, o, skips, dev, anc) ==
 (* A root: arg = the command-line argument, at = the real directory it denotes, shown = the components every path    *)
 (* below it is printed with (the argument without leading "./" and trailing separators; <<>> for ".").              *)
 Root(arg, at, shown) == [arg |-> arg, at |-> at, shown |-> shown]
-RootOK(r) == IsRealDir(r.at)
+(* A root spelled through "..": `need` is the directory the spelling passes through (it has to exist and to be a     *)
+(* real directory: then NEED/.. is its parent, `at`).  CODE-DERIVED: nothing is cleaned - the components of the       *)
+(* argument are printed as they are ("a/../x"); DOCUMENTED: the ".." component is not a hidden entry, everything      *)
+(* visible under `at` is listed.  fastwalk's lexical ancestors come from filepath.Dir, which cleans: they are the      *)
+(* prefixes of `at`, as for any other spelling.                                                                       *)
+RootVia(arg, at, shown, need) == [arg |-> arg, at |-> at, shown |-> shown, need |-> need]
+RootOK(r) == IsRealDir(r.at) /\ ("need" \in DOMAIN r => r.need # <<>> /\ IsRealDir(r.need))
 RootAnc(r) == PathPrefixes(r.at)          \* the root itself, the directories between it and the working directory, and
                                       \* the working directory
 WalkRoot(r, o, skips, dev) ==
